@@ -236,6 +236,8 @@ type veConn struct {
 	SettleMs  int                    `json:"settle_ms"`
 	NoClose   bool                   `json:"noclose"`
 	HeaderCut int                    `json:"header_cut"` // >0: send only this many header bytes, then close
+	PreDbus   []string               `json:"pre_dbus"`   // service methods called before this connection is dialled
+	RmTempsAt []int                  `json:"rm_temps_at"` // payload offsets at which every *.cptv.temp in the output directory is unlinked
 }
 type veScenario struct {
 	Config   string   `json:"config"`
@@ -386,6 +388,22 @@ func TestVerifE2E(t *testing.T) {
 		return nil, err
 	}
 	var replyMu sync.Mutex
+	// watchdog: the scenario makes progress (bytes written, requests answered) or the daemon has stalled
+	var lastProgress int64 = time.Now().UnixNano()
+	progress := func() { atomic.StoreInt64(&lastProgress, time.Now().UnixNano()) }
+	go func() {
+		for {
+			time.Sleep(time.Second)
+			if time.Since(time.Unix(0, atomic.LoadInt64(&lastProgress))) > 25*time.Second {
+				buf := make([]byte, 1<<15)
+				n := runtime.Stack(buf, true)
+				replyMu.Lock()
+				enc.Encode(map[string]interface{}{"ev": "e2e-stall", "conn": -1, "sent": -1, "why": "no progress for 25 s (a service request or the frame loop is stuck)",
+					"log": tailStr(lb.String(), 800) + "\n" + tailStr(string(buf[:n]), 2500)})
+				os.Exit(4)
+			}
+		}
+	}()
 	var doneVal int64 // value of the latest frame that has certainly been processed on the current connection
 	var bgWg sync.WaitGroup
 	defer bgWg.Wait()
@@ -396,6 +414,25 @@ func TestVerifE2E(t *testing.T) {
 		atomic.StoreInt64(&doneVal, 0)
 		if cn.Procs > 0 {
 			runtime.GOMAXPROCS(cn.Procs)
+		}
+		for _, member := range cn.PreDbus {
+			svc := &service{}
+			res := ""
+			switch member {
+			case "CameraInfo":
+				if _, derr := svc.CameraInfo(); derr != nil {
+					res = fmt.Sprint(derr.Name)
+				}
+			case "TakeSnapshot":
+				if _, derr := svc.TakeSnapshot(-1); derr != nil {
+					res = fmt.Sprint(derr.Name)
+				}
+			case "TakeTestRecording":
+				if derr := svc.TakeTestRecording(); derr != nil {
+					res = fmt.Sprint(derr.Name)
+				}
+			}
+			enc.Encode(map[string]interface{}{"ev": "e2e-predbus", "conn": ci, "member": member, "err": res})
 		}
 		tDial := time.Now()
 		conn, err := dial()
@@ -438,6 +475,7 @@ func TestVerifE2E(t *testing.T) {
 		stream := append(append([]byte{}, hdr...), payload...)
 		var wg sync.WaitGroup
 		pos, k, paced := 0, 0, 0
+		undrained := 0 // consecutive items the daemon did not read within 2 s each
 		nextReq := 0
 		sort.Slice(cn.Dbus, func(i, j int) bool { return cn.Dbus[i].AtByte < cn.Dbus[j].AtByte })
 		fire := func(rq veDbusReq) {
@@ -545,11 +583,19 @@ func TestVerifE2E(t *testing.T) {
 						replyMu.Lock()
 						enc.Encode(ev)
 						replyMu.Unlock()
+						progress()
 					}
 				})
 			}
 		}
 		for pos < len(stream) {
+			if undrained >= 5 {
+				// the daemon stopped reading the frame socket: report and give up (nothing more can be learnt)
+				replyMu.Lock()
+				enc.Encode(map[string]interface{}{"ev": "e2e-stall", "conn": ci, "sent": pos, "log": tailStr(lb.String(), 1500)})
+				replyMu.Unlock()
+				os.Exit(4)
+			}
 			n := len(stream) - pos
 			if len(cn.Cuts) > 0 {
 				c := cn.Cuts[k%len(cn.Cuts)]
@@ -571,14 +617,31 @@ func TestVerifE2E(t *testing.T) {
 				fire(cn.Dbus[nextReq])
 				nextReq++
 			}
+			for len(cn.RmTempsAt) > 0 && cn.RmTempsAt[0] <= pos-len(hdr) {
+				cn.RmTempsAt = cn.RmTempsAt[1:]
+				veDrain(conn)
+				time.Sleep(10 * time.Millisecond)
+				tmps, _ := filepath.Glob(filepath.Join(out, "*.cptv.temp"))
+				for _, tp := range tmps {
+					os.Remove(tp)
+				}
+				replyMu.Lock()
+				enc.Encode(map[string]interface{}{"ev": "e2e-rmtemps", "conn": ci, "removed": len(tmps)})
+				replyMu.Unlock()
+			}
 			if _, err := conn.Write(stream[pos : pos+n]); err != nil {
 				break
 			}
+			progress()
 			pos += n
 			if len(cn.PaceAt) > 0 {
 				for paced < len(cn.PaceAt) && cn.PaceAt[paced] <= pos-len(hdr) {
 					paced++
-					veDrain(conn)
+					if veDrain(conn) {
+						undrained = 0
+					} else {
+						undrained++
+					}
 					time.Sleep(time.Duration(cn.PaceMs) * time.Millisecond)
 					if paced-1 < len(cn.PaceVals) && cn.PaceVals[paced-1] > 0 {
 						atomic.StoreInt64(&doneVal, int64(cn.PaceVals[paced-1]))
@@ -641,14 +704,14 @@ func TestVerifE2E(t *testing.T) {
 // veDrain waits until the peer has consumed everything written to the unix
 // socket (SIOCOUTQ = 0), so that frames are never processed back to back
 // within one millisecond (the daemon's file names have 1 ms resolution).
-func veDrain(c net.Conn) {
+func veDrain(c net.Conn) bool {
 	uc, ok := c.(*net.UnixConn)
 	if !ok {
-		return
+		return true
 	}
 	rc, err := uc.SyscallConn()
 	if err != nil {
-		return
+		return true
 	}
 	for i := 0; i < 4000; i++ {
 		n := -1
@@ -660,10 +723,11 @@ func veDrain(c net.Conn) {
 			}
 		})
 		if n <= 0 {
-			return
+			return true
 		}
 		time.Sleep(500 * time.Microsecond)
 	}
+	return false // 2 s and the daemon has not taken what was sent
 }
 
 func tailStr(s string, n int) string {
